@@ -445,6 +445,9 @@ def run(check, repo: Repo) -> None:
             fns.append((st.name, st, None))
         elif isinstance(st, ast.ClassDef):
             fns += [(f"{st.name}.{f.name}", f, st.name) for f in st.body if isinstance(f, (ast.FunctionDef, ast.AsyncFunctionDef))]
+    from ..core.repo import is_referenced
+    dead = [q_ for q_, f_, _c in fns if not is_referenced(repo, f_)]
+    fns = [x for x in fns if x[0] not in dead]  # an unused private helper decides nothing about what load() returns
     found, n_sites = memo_findings(smod.tree, fns)
     for node, q, msg in found:
         check.violated("C01-R12", f"{q}: persistent cache entries are keyed on all of their inputs", msg + " — e.g. a class cache keyed by class name alone returns the class of "
